@@ -579,6 +579,343 @@ def rule_data_phase_model(ctx) -> None:
                    "; ".join(probs[:2])[:700], "", A.loc(MB, ctx.own(MB, "McuBoot", "_read_data").node))
 
 
+def rule_command_model(ctx) -> None:
+    """C10.command-model: every public McuBoot operation that sends a command is evaluated as a whole function against a model of the
+    command layer: `_process_cmd` answers with a response of the scripted status (a specific response class on success, a generic one on
+    failure - what `parse_cmd_response` produces for an error status), `_send_data` / `_read_data` are scripted and logged.  Obligations
+    (the property's "results mirror the device"): a failing command gives a negative result (False / None) and NO data phase; a
+    successful command (and data phase) gives a positive one (True / not None); a data-out phase that fails gives a negative result;
+    bytes handed over by `_read_data` are what a reading operation returns."""
+    mb = ctx.cls(MB, "McuBoot")
+    status = ctx.enum_model(ctx.cls("spsdk/mboot/error_codes.py", "StatusCode"))
+    if status is None:
+        raise AnalysisError("C10.command-model: StatusCode does not fold to an enum model")
+    OKS, FAIL = status.SUCCESS.tag, status.FAIL.tag
+    DATA = b"12345678"
+
+    def argmodel(a: ast.arg):
+        ann = norm(a.annotation) if a.annotation is not None else ""
+        return {"int": 0x20, "bytes": b"abcdefgh", "bool": False, "str": "x"}.get(ann)
+
+    def evaluate(fn, cmd_status, send_ok):
+        log: List[str] = []
+
+        def leaves(c: ast.Call, ev):
+            f = norm(c.func)
+            if f == "self._process_cmd":
+                log.append("cmd")
+                ev.env["self"]._status_code = cmd_status
+                return Obj(_resp=True, _specific=cmd_status == OKS, status=cmd_status, value=5, values=(7, 8), raw_size=8, max_packet_size=32, length=8, data=DATA)
+            if f == "self._send_data":
+                log.append("send")
+                return send_ok
+            if f == "self._read_data":
+                log.append("read")
+                return DATA
+            if f == "self._split_data" and len(c.args) == 1:
+                d = ev.ev(c.args[0])
+                return (d[:4], d[4:])
+            if f == "CmdPacket":
+                for a_ in c.args:
+                    ev.ev(a_)
+                return Obj(_pkt=True)
+            if f in ("_clamp_down_memory_id", "clamp_down_memory_id"):
+                return ev.ev(c.args[0] if c.args else c.keywords[0].value)
+            if f == "get_property_tag_label" and len(c.args) == 1:
+                return (ev.ev(c.args[0]) if not isinstance(ev.ev(c.args[0]), Obj) else 1, "label")
+            if f in ("self.close", "self.open", "self._interface.close", "self._interface.open", "time.sleep"):
+                return None
+            if f == "isinstance" and len(c.args) == 2:
+                v = ev.ev(c.args[0])
+                if isinstance(v, Obj) and "_resp" in v.__dict__:
+                    names = [norm(x) for x in (c.args[1].elts if isinstance(c.args[1], ast.Tuple) else [c.args[1]])]
+                    if all(nm.endswith("Response") for nm in names):
+                        return True if any(nm in ("GenericResponse", "CmdResponse") for nm in names) else v._specific
+            return ordereval.NOT_MODELLED
+        me = Obj(_cls=mb, is_opened=True, _interface=Obj(allow_abort=False, need_data_split=True), _cmd_exception=False, _status_code=OKS,
+                 enable_data_abort=False, _pause_point=None, reopen=False, max_packet_size=4)
+        env: Dict[str, Any] = {"self": me}
+        args = fn.node.args
+        defaults = dict(zip([a.arg for a in args.args][len(args.args) - len(args.defaults):], args.defaults))
+        for a in args.args[1:]:
+            env[a.arg] = ordereval.Evaluator({}, ctx.fold_sym(fn)).ev(defaults[a.arg]) if a.arg in defaults else argmodel(a)
+        out = ordereval.Evaluator(env, ctx.fold_sym(fn), opaque_return=False, call_value=ctx.model_calls(leaves, classes={"McuBoot": mb}, module=MB)).run(A.body_of(fn.node))
+        return out, log
+
+    n = 0
+    skipped = []
+    for name, lst in sorted(mb.methods.items()):
+        fn = lst[0]
+        if name.startswith("_") or not list(A.calls_in(fn.node, "_process_cmd")):
+            continue
+        ret = norm(fn.node.returns) if fn.node.returns is not None else ""
+        kind = "bool" if ret == "bool" else "optional" if ret.startswith("Optional[") else None
+        if kind is None:
+            skipped.append(f"{name} (returns {ret})")
+            continue
+        has_send = bool(list(A.calls_in(fn.node, "_send_data")))
+        has_read = bool(list(A.calls_in(fn.node, "_read_data")))
+        try:
+            runs = {"fail": evaluate(fn, FAIL, True), "ok": evaluate(fn, OKS, True)}
+            if has_send:
+                runs["send-fails"] = evaluate(fn, OKS, False)
+        except ordereval.Unsupported as ex:
+            skipped.append(f"{name} (left the fragment: {str(ex)[:60]})")
+            continue
+        n += 1
+        ctx.chk.analysed(fn.qual)
+        probs = []
+
+        def neg(o):
+            return o.kind == "return" and (o.value is False if kind == "bool" else o.value is None)
+
+        def pos(o):
+            return o.kind == "return" and (o.value is True if kind == "bool" else o.value is not None)
+        o, log = runs["fail"]
+        if not neg(o):
+            probs.append(f"the device answers the command with status FAIL and the call {o.kind}s {o.value!r}")
+        elif log.index("cmd") != len(log) - 1 and name != "generate_key_blob":
+            probs.append(f"the device answers the command with status FAIL and a data phase follows ({log})")
+        o, log = runs["ok"]
+        if not pos(o):
+            probs.append(f"the device answers SUCCESS{' and the data phase succeeds' if has_send or has_read else ''} and the call {o.kind}s {o.value!r}")
+        elif has_read and not has_send and isinstance(o.value, (bytes, bytearray)) and bytes(o.value) != DATA:
+            probs.append(f"the data phase delivered {DATA!r} and the call returns {bytes(o.value)!r}")
+        elif (has_send and "send" not in log) or (has_read and "read" not in log):
+            probs.append(f"the command succeeds and its data phase does not take place ({log})")
+        if "send-fails" in runs:
+            o, log = runs["send-fails"]
+            if not neg(o):
+                probs.append(f"the data-out phase fails and the call {o.kind}s {o.value!r}")
+        ctx.chk.decide(not probs, "C10.command-model", fn.qual, "negative result without data phase on a failing command; positive result on success; a failing data-out phase is a negative result",
+                       "; ".join(probs)[:500], "result mirrors the device status", A.loc(MB, fn.node))
+    for s_ in skipped:
+        ctx.chk.report(f"C10.command-model (not modelled): McuBoot.{s_}")
+    ctx.chk.floor("C10.command-model", 49)
+
+
+def rule_serial_model(ctx) -> None:
+    """C10.serial-model: MbootSerialProtocol.read / write_data / write_command evaluated as whole functions (with every helper they call
+    stepped into) against a model UART: a device-to-host byte stream that is consumed by `device.read(n)` (an exhausted stream is the
+    device layer's timeout exception) and a log of `device.write`.  Reference = the documented frame (0x5A, type, len16, CRC16/XMODEM
+    over start, type, length and payload, payload).  Obligations: a good frame is returned exactly and acknowledged once; EVERY single
+    byte corruption of it (each position, two bit patterns), truncation at every position, a zero-length frame, an abort frame, NAK /
+    abort / silence instead of the ACK make the call raise - never a return value; the frame written is the reference frame."""
+    import binascii
+    import struct as _st
+    import zlib
+    from ..engines import roundtrip
+    k = ctx.cls(SER, "MbootSerialProtocol")
+    fp = ctx.enum_model(ctx.cls(SER, "FPType"))
+    if fp is None:
+        raise AnalysisError("C10.serial-model: FPType does not fold to an enum model")
+    DATA, CMD, ACK, NAK, ABORT = fp.DATA.tag, fp.CMD.tag, fp.ACK.tag, fp.NACK.tag, fp.ABORT.tag
+    START = 0x5A
+
+    def ref_frame(t: int, payload: bytes) -> bytes:
+        c = binascii.crc_hqx(_st.pack(f"<BBH{len(payload)}B", START, t, len(payload), *payload), 0)
+        return _st.pack("<BBHH", START, t, len(payload), c) + payload
+
+    def run(method: str, stream: bytes, env_extra: Dict[str, Any]):
+        st = {"in": bytearray(stream), "out": [], "polls": 0}
+
+        def leaves(c: ast.Call, ev):
+            f = norm(c.func)
+            if f == "self.device.read" and c.args:
+                n_ = ev.ev(c.args[0])
+                if not isinstance(n_, int) or len(st["in"]) < n_:
+                    raise ordereval.ModelRaise(ordereval.Outcome("raise", "timeout", c))
+                out_ = bytes(st["in"][:n_])
+                del st["in"][:n_]
+                return out_
+            if f == "self.device.write" and len(c.args) == 1:
+                st["out"].append(bytes(ev.ev(c.args[0])))
+                return None
+            if f == "to_int" and c.args:
+                le = ev.ev(c.args[1]) if len(c.args) > 1 else (ev.ev(c.keywords[0].value) if c.keywords else True)
+                return int.from_bytes(ev.ev(c.args[0]), "little" if le else "big")
+            if f == "parse_cmd_response" and c.args:
+                return Obj(_parsed=bytes(ev.ev(c.args[0])))
+            if f == "packet.to_bytes":
+                return b"\x07\x00\x00\x01\x20\x00\x00\x00"
+            if f == "Timeout":
+                return Obj(_timeout=True)
+            if isinstance(c.func, ast.Attribute) and c.func.attr == "overflow" and not c.args:
+                st["polls"] += 1
+                return st["polls"] > 8
+            if f == "from_crc_algorithm" and len(c.args) == 1:
+                return Obj(_crc=norm(c.args[0]))
+            if isinstance(c.func, ast.Attribute) and c.func.attr == "calculate" and len(c.args) == 1:
+                o = ev.ev(c.func.value)
+                if isinstance(o, Obj) and "_crc" in o.__dict__:
+                    d = bytes(ev.ev(c.args[0]))
+                    return binascii.crc_hqx(d, 0) if o.__dict__["_crc"] == "CrcAlg.CRC16_XMODEM" else zlib.crc32(o.__dict__["_crc"].encode() + d) & 0xFFFF
+            return roundtrip.std_leaves(c, ev)
+        fn = ctx.own(SER, "MbootSerialProtocol", method)
+        env: Dict[str, Any] = {"self": Obj(_cls=k, device=Obj(timeout=100)), "length": None}
+        env.update(env_extra)
+        try:
+            out = ordereval.Evaluator(env, ctx.fold_sym(fn), opaque_return=False, call_value=ctx.model_calls(leaves, classes={"MbootSerialProtocol": k}, module=SER, max_depth=6)).run(A.body_of(fn.node))
+        except ordereval.ModelRaise:
+            return ("raise", None), st
+        except ordereval.Unsupported as ex:
+            raise AnalysisError(f"C10.serial-model: {fn.qual} left the fragment: {ex}")
+        v = out.value
+        if isinstance(v, Obj):
+            v = ("response", v.__dict__.get("_parsed"))
+        elif isinstance(v, (bytes, bytearray)):
+            v = bytes(v)
+        return (out.kind, v if out.kind == "return" else None), st
+    probs: List[str] = []
+    n = 0
+    ack = bytes([START, ACK])
+    payload = b"hello"
+    good = ref_frame(DATA, payload)
+    cmdp = b"\xa0\x00\x00\x02\x00\x00\x00\x00"
+    cases = [("a good data frame", good, ("return", payload), [ack]),
+             ("not-ready bytes before a good frame", b"\x00\x00" + good, ("return", payload), [ack]),
+             ("a good command frame", ref_frame(CMD, cmdp), ("return", ("response", cmdp)), [ack]),
+             ("a zero-length frame (abort)", _st.pack("<BBHH", START, DATA, 0, 0), ("raise", None), None),
+             ("an abort frame", bytes([START, ABORT]), ("raise", None), None),
+             ("a byte that is no frame start", b"\x11\x22" + good, ("raise", None), None)]
+    for i in range(len(good)):
+        for x in (0x01, 0xFF):
+            b = bytearray(good)
+            b[i] ^= x
+            cases.append((f"byte {i} of a good frame corrupted (^{x:#04x})", bytes(b), ("raise", None), None))
+        cases.append((f"a frame truncated after {i} bytes", good[:i], ("raise", None), None))
+    for label, stream, want, want_out in cases:
+        got, st = run("read", stream, {})
+        n += 1
+        if got != want or (want_out is not None and (st["out"] != want_out or st["in"])):
+            probs.append(f"read(), {label}: {got}, written {[x.hex() for x in st['out']]}, unread {len(st['in'])}; expected {want}")
+    for method, extra, t, body in (("write_data", {"data": b"abc"}, DATA, b"abc"), ("write_command", {"packet": Obj(_packet=True)}, CMD, b"\x07\x00\x00\x01\x20\x00\x00\x00")):
+        for label, stream, want in (("the device acknowledges", ack, "fall"), ("the device answers NAK", bytes([START, NAK]), "raise"), ("the device aborts", bytes([START, ABORT]), "raise"),
+                                    ("the device stays silent", b"", "raise"), ("the device answers garbage", b"\x33\x44", "raise")):
+            got, st = run(method, stream, extra)
+            n += 1
+            kind = "fall" if got[0] in ("fall", "return") and got[1] is None else got[0]
+            if kind != want or st["out"][:1] != [ref_frame(t, body)] or len(st["out"]) != 1:
+                probs.append(f"{method}(), {label}: {got}, written {[x.hex() for x in st['out']]}; expected {want} and the frame {ref_frame(t, body).hex()}")
+    ctx.chk.exhaustive_rules.add("C10.serial-model")
+    ctx.chk.analysed(ctx.own(SER, "MbootSerialProtocol", "read").qual)
+    ctx.chk.decide(not probs, "C10.serial-model", f"{SER}::MbootSerialProtocol.read/write_data/write_command", f"good frames are delivered exactly and acknowledged once; every corrupted, truncated, aborted or unacknowledged frame raises ({n} scripted streams)",
+                   "; ".join(probs[:2])[:700], "0x5A, type, len16, crc16-xmodem(start, type, len, payload), payload; ACK/NAK/ABORT", A.loc(SER, ctx.own(SER, "MbootSerialProtocol", "read").node))
+
+
+def rule_hid_model(ctx) -> None:
+    """C10.hid-model: MbootBulkProtocol.write_data / write_command / read as whole functions against a model HID device.  Reference =
+    the documented report (id, 0, len16 little endian, payload; zero length = abort).  The payload handed to the caller is exactly the
+    `len` bytes behind the header (the report's padding is cut), a zero-length report raises, an empty read raises, what is written is
+    the reference report."""
+    import struct as _st
+    from ..engines import roundtrip
+    k = ctx.cls(BULK, "MbootBulkProtocol")
+    rid = ctx.enum_model(ctx.cls(BULK, "ReportId"))
+    if rid is None:
+        raise AnalysisError("C10.hid-model: ReportId does not fold to an enum model")
+
+    def run(method: str, reads: List[bytes], env_extra: Dict[str, Any]):
+        st = {"in": list(reads), "out": []}
+
+        def leaves(c: ast.Call, ev):
+            f = norm(c.func)
+            if f == "self.device.read":
+                return st["in"].pop(0) if st["in"] else b""
+            if f == "self.device.write" and len(c.args) == 1:
+                st["out"].append(bytes(ev.ev(c.args[0])))
+                return None
+            if f == "parse_cmd_response" and c.args:
+                return Obj(_parsed=bytes(ev.ev(c.args[0])))
+            if f == "packet.to_bytes":
+                return b"\x07\x00\x00\x01\x20\x00\x00\x00"
+            return roundtrip.std_leaves(c, ev)
+        fn = ctx.own(BULK, "MbootBulkProtocol", method)
+        env: Dict[str, Any] = {"self": Obj(_cls=k, device=Obj(timeout=100), allow_abort=False), "length": None}
+        env.update(env_extra)
+        try:
+            out = ordereval.Evaluator(env, ctx.fold_sym(fn), opaque_return=False, call_value=ctx.model_calls(leaves, classes={"MbootBulkProtocol": k}, module=BULK, max_depth=6)).run(A.body_of(fn.node))
+        except ordereval.ModelRaise:
+            return ("raise", None), st
+        except ordereval.Unsupported as ex:
+            raise AnalysisError(f"C10.hid-model: {fn.qual} left the fragment: {ex}")
+        v = out.value
+        if isinstance(v, Obj):
+            v = ("response", v.__dict__.get("_parsed"))
+        elif isinstance(v, (bytes, bytearray)):
+            v = bytes(v)
+        return (out.kind if out.kind != "fall" else "return", v if out.kind == "return" else None), st
+    probs: List[str] = []
+    n = 0
+    pad = b"\xEE" * 20
+    for label, report, want in (("a data report with padding", _st.pack("<2BH", rid.DATA_IN.tag, 0, 5) + b"hello" + pad, ("return", b"hello")),
+                                ("a data report without padding", _st.pack("<2BH", rid.DATA_IN.tag, 0, 5) + b"hello", ("return", b"hello")),
+                                ("a 300-byte data report", _st.pack("<2BH", rid.DATA_IN.tag, 0, 300) + bytes(i & 0xFF for i in range(300)) + pad, ("return", bytes(i & 0xFF for i in range(300)))),
+                                ("a command report", _st.pack("<2BH", rid.CMD_IN.tag, 0, 8) + b"\xa0\x00\x00\x02\x00\x00\x00\x00" + pad, ("return", ("response", b"\xa0\x00\x00\x02\x00\x00\x00\x00"))),
+                                ("a zero-length report (abort)", _st.pack("<2BH", rid.DATA_IN.tag, 0, 0) + pad, ("raise", None)),
+                                ("nothing", b"", ("raise", None))):
+        got, st = run("read", [report], {})
+        n += 1
+        if got != want:
+            probs.append(f"read(), {label}: {got if not isinstance(got[1], bytes) or len(got[1]) < 24 else (got[0], got[1][:24].hex() + '...')}; expected {want if not isinstance(want[1], bytes) or len(want[1]) < 24 else want[0]}")
+    for method, extra, t, body in (("write_data", {"data": b"abc"}, rid.DATA_OUT.tag, b"abc"), ("write_data", {"data": bytes(range(256)) + b"xyz"}, rid.DATA_OUT.tag, bytes(range(256)) + b"xyz"),
+                                   ("write_command", {"packet": Obj(_packet=True)}, rid.CMD_OUT.tag, b"\x07\x00\x00\x01\x20\x00\x00\x00")):
+        got, st = run(method, [], extra)
+        n += 1
+        if got != ("return", None) or st["out"] != [_st.pack("<2BH", t, 0, len(body)) + body]:
+            probs.append(f"{method}({len(body)} bytes): {got}, written {[x[:12].hex() for x in st['out']]}; expected one report {(_st.pack('<2BH', t, 0, len(body)) + body)[:12].hex()}")
+    ctx.chk.exhaustive_rules.add("C10.hid-model")
+    ctx.chk.analysed(ctx.own(BULK, "MbootBulkProtocol", "read").qual)
+    ctx.chk.decide(not probs, "C10.hid-model", f"{BULK}::MbootBulkProtocol.read/write_data/write_command", f"payloads are delivered exactly (padding cut), aborts and empty reads raise, reports written are id, 0, len16, payload ({n} scripted reports)",
+                   "; ".join(probs[:2])[:700], "id, 0, len16, payload; zero length = abort", A.loc(BULK, ctx.own(BULK, "MbootBulkProtocol", "read").node))
+
+
+def rule_process_cmd_model(ctx) -> None:
+    """C10.process-cmd-model: McuBoot._process_cmd as a whole function: the packet is written once, then one response is read; the
+    response is returned and its status becomes the status of the operation; with cmd_exception a non-success status raises; on a closed
+    interface nothing is written and the call raises."""
+    mb = ctx.cls(MB, "McuBoot")
+    status = ctx.enum_model(ctx.cls("spsdk/mboot/error_codes.py", "StatusCode"))
+    OKS, FAIL = status.SUCCESS.tag, status.FAIL.tag
+    fn = ctx.own(MB, "McuBoot", "_process_cmd")
+    probs: List[str] = []
+    n = 0
+    for label, opened, st_, exc, want in (("success", True, OKS, False, "return"), ("device reports FAIL, exceptions off", True, FAIL, False, "return"), ("device reports FAIL, exceptions on", True, FAIL, True, "raise"),
+                                          ("success, exceptions on", True, OKS, True, "return"), ("interface closed", False, OKS, False, "raise")):
+        log: List[Any] = []
+        resp = Obj(_resp=True, status=st_)
+        pkt = Obj(_pkt=True, header=Obj(tag=1))
+
+        def leaves(c: ast.Call, ev, log=log, resp=resp):
+            f = norm(c.func)
+            if f == "self._interface.write_command" and len(c.args) == 1:
+                log.append(("write", ev.ev(c.args[0])))
+                return None
+            if f == "self._interface.read" and not c.args:
+                log.append(("read", None))
+                return resp
+            if f == "isinstance" and len(c.args) == 2 and norm(c.args[1]) in ("CmdResponse", "GenericResponse"):
+                v = ev.ev(c.args[0])
+                return isinstance(v, Obj) and "_resp" in v.__dict__
+            if f == "CommandTag.get_label":
+                return "label"
+            return ordereval.NOT_MODELLED
+        me = Obj(_cls=mb, is_opened=opened, _interface=Obj(), _cmd_exception=exc, _status_code=OKS, status_string="x")
+        try:
+            out = ordereval.Evaluator({"self": me, "cmd_packet": pkt}, ctx.fold_sym(fn), opaque_return=False, call_value=ctx.model_calls(leaves, classes={"McuBoot": mb})).run(A.body_of(fn.node))
+            got = out.kind
+            val = out.value
+        except ordereval.ModelRaise:
+            got, val = "raise", None
+        except ordereval.Unsupported as ex:
+            raise AnalysisError(f"C10.process-cmd-model: {fn.qual} left the fragment: {ex}")
+        n += 1
+        want_log = [("write", pkt), ("read", None)] if opened else []
+        if got != want or log != want_log or (want == "return" and (val is not resp or me._status_code != st_)):
+            probs.append(f"{label}: {got}, interface calls {[x[0] for x in log]}, status {me._status_code}; expected {want}, one write then one read, status {st_}")
+    ctx.chk.decide(not probs, "C10.process-cmd-model", fn.qual, f"packet written once, one response read and returned, status mirrored ({n} models)", "; ".join(probs[:2])[:600], "", A.loc(MB, fn.node))
+
+
 def rule_sdp_status_rearm(ctx) -> None:
     """C10.sdp-status-rearm: on the serial SDP link the reader tells a HAB status word from data by the flag `expect_status`; SDP._read_data
     clears it for the data phase.  Every frame written to the device therefore re-arms it: a method of the protocol class that calls
@@ -627,6 +964,10 @@ def run(ctx) -> None:
     ctx.rule(rule_registry)
     ctx.rule(rule_bounded)
     ctx.rule(rule_data_phase_model)
+    ctx.rule(rule_command_model)
+    ctx.rule(rule_serial_model)
+    ctx.rule(rule_hid_model)
+    ctx.rule(rule_process_cmd_model)
     ctx.rule(rule_sdp_status_rearm)
     ctx.chk.assumptions = ["device reads raise on timeout (interfaces/device/base.py contract)", "the interface models used for the loop evaluation return at most the requested number of bytes",
                            "not decided: arbitrary fault histories, exact bytes on the wire, USB-HID report framing"]
